@@ -236,3 +236,134 @@ def rule_cache_keys(ctx, rule):
                    m.site(fn), witness="f(True); f(1)", sample="%s.%s: key %s" % (m.name, fn.name, "typed" if typed else "does not need types"))
     ctx.ob(rule, "cache-key/scanned", True, "", None, sample="%d modules scanned, %d memoised functions, positive example fires" % (nmods, n))
     ctx.require_instances(rule, nmods, 30, "modules scanned")
+
+
+def rule_fresh_results(ctx, rule, cases):
+    """cases: [(module, function, argument list)] of functions returning a list / dict.  The value a call returns belongs to
+    the caller: after the caller empties it, the same call must answer as before (a memo that hands out its own entry fails)."""
+    ctx.rule(rule, "a returned container belongs to the caller: each listed function, interpreted twice on the same arguments with the first result emptied in between, answers the second time what it answered the first time (a memoised function that hands out its cache entry does not); the interpreter keeps module-level containers alive between the two calls")
+    import copy
+    from ..microeval import run_function, Raised
+    from ..srcmodel import Unknown
+    repo = ctx.repo
+    n = 0
+    for modname, fname, args in cases:
+        m = repo.mod(modname)
+        ref = m.func(fname)
+        ctx.fn(ref.qualname)
+        try:
+            first = run_function(repo, ref, copy.deepcopy(list(args)))
+            if hasattr(first, "__next__"):
+                first = list(first)
+            snapshot = copy.deepcopy(first)
+            if isinstance(first, list):
+                del first[:]
+            elif isinstance(first, (dict, set)):
+                first.clear()
+            second = run_function(repo, ref, copy.deepcopy(list(args)))
+            if hasattr(second, "__next__"):
+                second = list(second)
+        except Raised as e:
+            ctx.ob(rule, "fresh/%s.%s%r" % (modname, fname, tuple(args)), False, "%s(%r) raises %s" % (fname, args, e.name), m.site(ref.node))
+            continue
+        except Unknown as e:
+            ctx.undecided(rule, "%s%r: %s" % (fname, tuple(args), e))
+            continue
+        n += 1
+        ctx.ob(rule, "fresh/%s.%s%r" % (modname, fname, tuple(args)), second == snapshot,
+               "%s.%s%r returns %r, and after the caller emptied that result the same call returns %r: the function hands out a container it keeps" % (modname, fname, tuple(args), snapshot, second),
+               m.site(ref.node), witness="r = %s%r; del r[:]; %s%r" % (fname, tuple(args), fname, tuple(args)))
+    ctx.require_instances(rule, n, len(cases), "(function, arguments) cells")
+
+
+# ----------------------------------------------------------------------
+# hand-written memos: a module-level dict filled and read by one function
+# ----------------------------------------------------------------------
+def memo_keys_in(tree):
+    """[(function node, cache name, parameters the body uses but the key does not hold)] for functions that store into and read
+    from a module-level dict under a key built from their parameters"""
+    dicts = set()
+    for st in tree.body:
+        if isinstance(st, ast.Assign) and len(st.targets) == 1 and isinstance(st.targets[0], ast.Name):
+            v = st.value
+            if isinstance(v, ast.Dict) and not v.keys:
+                dicts.add(st.targets[0].id)
+            elif isinstance(v, ast.Call) and not v.args and not v.keywords and isinstance(v.func, (ast.Name, ast.Attribute)) and (getattr(v.func, "id", None) or getattr(v.func, "attr", None)) in ("dict", "OrderedDict"):
+                dicts.add(st.targets[0].id)
+    out = []
+    if not dicts:
+        return out
+    for fn in ast.walk(tree):
+        if not isinstance(fn, ast.FunctionDef):
+            continue
+        params = [a.arg for a in fn.args.posonlyargs + fn.args.args + fn.args.kwonlyargs]
+        if not params:
+            continue
+        local_defs = {}
+        for x in ast.walk(fn):
+            if isinstance(x, ast.Assign) and len(x.targets) == 1 and isinstance(x.targets[0], ast.Name):
+                local_defs.setdefault(x.targets[0].id, []).append(x.value)
+            if isinstance(x, ast.NamedExpr) and isinstance(x.target, ast.Name):
+                local_defs.setdefault(x.target.id, []).append(x.value)
+
+        def names_of(expr, depth=0):
+            got = set()
+            for y in ast.walk(expr):
+                if isinstance(y, ast.Name) and isinstance(y.ctx, ast.Load):
+                    if y.id in params:
+                        got.add(y.id)
+                    elif y.id in local_defs and depth < 3:
+                        for v in local_defs[y.id]:
+                            got |= names_of(v, depth + 1)
+            return got
+        for cache in sorted(dicts):
+            stores = [x for x in ast.walk(fn) if isinstance(x, ast.Subscript) and isinstance(x.ctx, ast.Store) and isinstance(x.value, ast.Name) and x.value.id == cache]
+            reads = [x for x in ast.walk(fn) if (isinstance(x, ast.Subscript) and isinstance(x.ctx, ast.Load) and isinstance(x.value, ast.Name) and x.value.id == cache)
+                     or (isinstance(x, ast.Call) and isinstance(x.func, ast.Attribute) and x.func.attr in ("get", "setdefault") and isinstance(x.func.value, ast.Name) and x.func.value.id == cache)
+                     or (isinstance(x, ast.Compare) and any(isinstance(o, (ast.In, ast.NotIn)) for o in x.ops) and any(isinstance(c, ast.Name) and c.id == cache for c in x.comparators))]
+            if not stores or not reads:
+                continue
+            key_names = set()
+            for s_ in stores:
+                key_names |= names_of(s_.slice)
+            if not key_names:
+                continue  # a registry keyed on something else than the arguments: not a memo of this function
+            # parameters read anywhere in the body outside the key expressions
+            key_nodes = set()
+            for s_ in stores:
+                key_nodes |= set(id(y) for y in ast.walk(s_.slice))
+            used = set()
+            for y in ast.walk(fn):
+                if isinstance(y, ast.Name) and isinstance(y.ctx, ast.Load) and y.id in params and id(y) not in key_nodes:
+                    used.add(y.id)
+            missing = sorted(p for p in used if p not in key_names and p not in ("self", "cls"))
+            out.append((fn, cache, missing))
+    return out
+
+
+_POSITIVE_MEMO = "MEMO = {}\n\ndef convert(url, mode=False):\n    r = MEMO.get(url)\n    if r is None:\n        r = url.upper() if mode else url\n        MEMO[url] = r\n    return r\n"
+
+
+def rule_memo_keys(ctx, rule):
+    ctx.rule(rule, "a hand-written memo answers like the function it shortcuts: where a function stores into and reads from a module-level dict under a key built from its parameters, every parameter its body reads is part of the key (a memo of url_to_lru keyed on the url alone answers suffix_aware=True with what suffix_aware=False computed first)")
+    repo = ctx.repo
+    demo = memo_keys_in(ast.parse(_POSITIVE_MEMO))
+    if not (len(demo) == 1 and demo[0][2] == ["mode"]):
+        raise AnalysisError("memo-key rule does not fire on its built-in positive example")
+    n = 0
+    nmods = 0
+    for mname in repo.all_module_names():
+        if mname.endswith("tld_data"):
+            continue
+        try:
+            m = repo.mod(mname)
+        except Exception:
+            continue
+        nmods += 1
+        for fn, cache, missing in memo_keys_in(m.tree):
+            n += 1
+            ctx.ob(rule, "memo-key/%s.%s/%s" % (m.name, fn.name, cache), not missing,
+                   "%s.%s keeps its answers in %s under a key that leaves out %s, which the body reads: a later call with another value of %s gets the earlier answer" % (m.name, fn.name, cache, ", ".join(missing), ", ".join(missing)),
+                   m.site(fn), witness="%s(x); %s(x, %s=<other>)" % (fn.name, fn.name, missing[0] if missing else "option"), sample="%s.%s: key of %s holds every parameter read" % (m.name, fn.name, cache))
+    ctx.ob(rule, "memo-key/scanned", True, "", None, sample="%d modules scanned, %d hand-written memos, positive example fires" % (nmods, n))
+    ctx.require_instances(rule, nmods, 30, "modules scanned")
